@@ -252,6 +252,9 @@ func genSession(g, f *sim.Stream, tier string) (pieces []*replPiece, finalExpr s
 	}
 	// fault pieces
 	nf := f.Intn(4)
+	if threadWrite {
+		nf = 0
+	}
 	type ins struct {
 		pos int
 		p   *replPiece
@@ -433,8 +436,18 @@ func genSession(g, f *sim.Stream, tier string) (pieces []*replPiece, finalExpr s
 // then, rightly, end them: such sessions get no stale cancels).
 var crossThreads bool
 
+// threadWrite is set by c18Extras when a thread started by one statement
+// assigns to a global after later statements have run: in a session those later
+// statements may arrive in later pieces. Such sessions get no fault pieces, and
+// the one global (twv) and its one mark (id c18TwMark) are judged by
+// themselves, apart from everything else.
+var threadWrite bool
+
+const c18TwMark = 7999
+
 func c18Extras(g *sim.Stream, stmts []Stmt) []Stmt {
 	crossThreads = false
+	threadWrite = false
 	var extra []Stmt
 	id := 7000
 	mark := func(expr string) Stmt {
@@ -510,6 +523,21 @@ func c18Extras(g *sim.Stream, stmts []Stmt) []Stmt {
 		if g.Bool() {
 			extra = append(extra, Stmt{Src: "tz := spawn(func(a) { return a * 3 }, 7)"}, mark("tz.wait()"))
 		}
+	}
+	if g.Chance(1, 6) {
+		// a thread that assigns to a global once it is fed, which is after
+		// later statements (in a session: possibly later pieces, which bring
+		// new globals) have run
+		crossThreads = true
+		threadWrite = true
+		extra = append(extra,
+			Stmt{Src: "twv := 0"},
+			Stmt{Src: "cw := chan(1)"},
+			Stmt{Src: "tw := spawn(func() { got := <-cw; twv = got; return got })"},
+			Stmt{Src: fmt.Sprintf("twpad%d := %d", g.Intn(3), g.Intn(9))},
+			Stmt{Src: fmt.Sprintf("cw <- %d", 60+g.Intn(5))},
+			Stmt{Src: "tw.wait()"},
+			Stmt{Src: fmt.Sprintf("mark(%d, twv)", c18TwMark)})
 	}
 	if len(extra) == 0 {
 		return stmts
@@ -822,6 +850,28 @@ func runC18(rc *fw.RunCtx) {
 	}
 
 	// ---- equivalence: A0 vs W
+	if threadWrite {
+		// the global a cross-piece thread assigns to is judged by itself
+		twOf := func(globals map[string]string, log []string) string {
+			obs := "global=" + globals["twv"]
+			delete(globals, "twv")
+			for i, l := range log {
+				if strings.HasPrefix(l, fmt.Sprintf("mark[%d ", c18TwMark)) {
+					obs += " " + l
+					log[i] = fmt.Sprintf("mark[%d *]", c18TwMark)
+				}
+			}
+			return obs
+		}
+		rc.Hit("theme_thread_write")
+		twA0, twW := twOf(a0globals, a0log), twOf(wglobals, wlog)
+		twOf(map[string]string{}, alog)
+		skip["twv"] = true
+		if twA0 != twW && a0final.String() == wfinal.String() && diffGlobals(a0globals, wglobals) == "" && strings.Join(a0log, "\n") == strings.Join(wlog, "\n") {
+			rc.Violate("equivalence/thread-global-write-lost", "a thread started in an earlier piece assigned to a global after later pieces had brought new globals: the session sees %s, the whole program %s (everything else agrees)", twA0, twW)
+			return
+		}
+	}
 	if a0final.String() != wfinal.String() {
 		rc.Violate("equivalence/final-value", "fault-free session ends with %s, whole program with %s", a0final, wfinal)
 		return
